@@ -245,11 +245,11 @@ class Store(registering.Registrar):
             raise ValueError("Empty Share Name %s" % share.name)
 
         levels = share.name.strip('.').split('.') #strip leading and following '.' and split
+        if not all(levels): #reject before creating any node so store is unchanged
+            raise ValueError("Empty level in '%s'" % share.name)
         node = self.shares
         depth = 0
         for level in levels[0:-1]: #all but last
-            if not level:
-                raise ValueError("Empty level in '%s'" % share.name)
             depth += 1
             node = node.setdefault(level, Node().byName('.'.join(levels[:depth]))) #add node if not exist
             if isinstance(node, Share):
@@ -280,11 +280,11 @@ class Store(registering.Registrar):
               the slice [-1] = [0] is the single item
         """
         levels = name.strip('.').split('.') #strip leading and following '.' and split
+        if not all(levels): #reject before creating any node so store is unchanged
+            raise ValueError("Empty level in '%s'" % name)
         node = self.shares
         depth = 0
         for level in levels:
-            if not level:
-                raise ValueError("Empty level in '%s'" % name)
             depth += 1
             node = node.setdefault(level, Node().byName('.'.join(levels[:depth]))) #add node if not exist
             if isinstance(node, Share):
